@@ -338,7 +338,7 @@ def chk_event_card(res, n, c, modes, exact, overlong):
     if not same_number(r, exact):
         cls = "event-has-orbit-longer-than-modes" if overlong else "all-orbits-fit"
         lib = _lib_cards(n, c, modes)
-        if lib is not None and same_number(r, sum(lib)):
+        if lib is not None and _is_sum_of(r, lib):
             # the summation itself is right: the deviation is the one of orbit_cardinality on the orbits of the event
             res.violation(f"C19|event_cardinality|exact-count|{cls}", f"event_cardinality(photon_number={n}, max_count_per_mode={c}, modes={modes}) = {r!r}; exact number of samples = {exact} (the value equals the sum of orbit_cardinality over the orbits of the event, so the deviation is inherited from orbit_cardinality)", case)
         else:
@@ -351,6 +351,20 @@ def _lib_cards(n, c, modes):
         return [sim.orbit_cardinality(list(p), modes) for p in partitions(n, c)]
     except Exception:  # noqa: BLE001
         return None
+
+
+def _is_sum_of(r, terms):
+    """r is the sum of the terms: exactly when all terms are integers; when orbit_cardinality returned floats
+    (modes > 170) up to the rigorous rounding bound of a floating-point summation in any order."""
+    if all(isinstance(t, (int, np.integer)) and not isinstance(t, bool) for t in terms):
+        return same_number(r, sum(int(t) for t in terms))
+    try:
+        from fractions import Fraction
+
+        exact = sum(Fraction(float(t)) for t in terms)
+        return abs(Fraction(float(r)) - exact) <= len(terms) * Fraction(1, 2**52) * abs(exact)
+    except Exception:  # noqa: BLE001
+        return False
 
 
 def chk_sample_to(res, sample):
